@@ -4,6 +4,12 @@
 (*                 (ArrivalAfterT0 + Boundary of the specification), in the unit of the       *)
 (*                 supplied energy, and close to Ei - Ef (flag computed by the harness from   *)
 (*                 the specification's exact rational).                                       *)
+(*                 Hardening round: the layout of the operands is recorded (scalar, dense,      *)
+(*                 per-pixel in several memory layouts, a time axis shared by pixels and        *)
+(*                 broadcast, event data, convert() on dense / event data); the result must be  *)
+(*                 addressable per (pixel, time): dims of the operands, event data iff the      *)
+(*                 times are (flag shape_ok); whether the call is a replay at the end; whether  *)
+(*                 the supplied energy is one per pixel (per-pixel layouts only).                *)
 (*  ev = "scan"  : arrival times around / far from the exact t0 of the fixed-energy leg, each *)
 (*                 with its side (computed exactly by the harness) and the class of the       *)
 (*                 returned value; judged with the specification's AllowedClasses.            *)
@@ -15,11 +21,21 @@ tvars == <<l, nbad>>
 
 Modes == {"direct", "indirect"}
 Sides == {"below", "at", "band", "above"}
+Layouts == {"scalar", "dense", "pixels", "pixels/T", "pixels/view", "pixels/slice", "bcast", "bcast/scalar-tof", "bcast/1-tof",
+            "events", "events/gaps", "convert", "convert/events"}
+Orders == {"ascending", "descending", "shuffled"}      \* listing order of the scanned times: irrelevant
+Classes == {"nan", "num", "inf"}
 
 JudgeFlight(e) ==
     IF e.mode \notin Modes THEN "unknown_mode"
+    ELSE IF e.layout \notin Layouts \/ (e.via = "convert") # (e.layout \in {"convert", "convert/events"})
+         THEN "unknown_layout"
+    ELSE IF e.energy_per_pixel /\ e.layout \notin {"pixels", "pixels/T", "pixels/view", "pixels/slice",
+                                                  "events", "events/gaps"} THEN "unknown_layout"
     ELSE IF e.status # "ok" THEN "kernel_raised"
+    ELSE IF ~e.shape_ok THEN "result_dims"
     ELSE IF e.unit_out # e.unit_in THEN "result_not_in_unit_of_supplied_energy"
+    ELSE IF e.cls \notin Classes THEN "malformed_result"
     ELSE IF e.cls = "inf" THEN "infinite_result"
     ELSE IF e.cls \notin AllowedClasses("above") THEN "physical_arrival_not_a_number"
     ELSE IF ~e.close THEN "energy_not_conserved"
@@ -29,7 +45,9 @@ JudgeScan(e) ==
     IF e.mode \notin Modes THEN "unknown_mode"
     ELSE IF e.status # "ok" THEN "kernel_raised"
     ELSE IF e.unit_out # e.unit_in THEN "result_not_in_unit_of_supplied_energy"
+    ELSE IF e.order \notin Orders THEN "unknown_order"
     ELSE IF Len(e.sides) # Len(e.cls) THEN "scan_length"
+    ELSE IF \E i \in 1..Len(e.cls) : e.cls[i] \notin Classes THEN "malformed_result"
     ELSE IF \E i \in 1..Len(e.cls) : e.cls[i] = "inf" THEN "infinite_result"
     ELSE IF \E i \in 1..Len(e.cls) : e.sides[i] \in {"below", "at"} /\ e.cls[i] \notin AllowedClasses(e.sides[i])
          THEN "not_nan_at_or_before_t0"
